@@ -218,6 +218,30 @@ class Analyzer:
                         ex_.load(path, p)
                     ex_.store(path, a[0], tuple(z3.BitVec("%s.l%d_%d" % (nm, i, len(path.log)), 64) for i in range(5)))
                 ex.summaries[F + nm] = asmsum
+        # calls that leave the analysed code base (no SSA body, no exact model): any such call with secret-derived
+        # arguments is a leak site of kind "extcall" (a routine not known to be constant time, e.g. bytes.Equal, math/big)
+        seen_ext = set()
+        work = [fname]
+        visited = set()
+        while work:
+            x = work.pop()
+            if x in visited:
+                continue
+            visited.add(x)
+            for c in callees(prog, x):
+                fc = prog.funcs.get(c)
+                if fc is None or fc.get("external"):
+                    if c not in ex.summaries and not c.endswith(".init"):
+                        seen_ext.add(c)
+                elif c in INLINE or not is_repo(prog, c):
+                    work.append(c)
+        for c in seen_ext:
+            def extsum(ex_, path, a, c=c):
+                sec = [x for x in a if not isinstance(x, (int, bool, str, X.Ptr, X.Closure)) and x is not None]
+                path.leaks.append(("extcall", ex_.site(path), c, len(path.pc)))
+                path.dstate.setdefault("extcalls", []).append(c)
+                raise X.ExecError("call to %s (no body, not modelled)" % c)
+            ex.summaries[c] = extsum
         args = []
         for i, p in enumerate(f["params"]):
             args.append(self.make_arg(k, k.path, p["type"], p["name"], fname))
@@ -247,7 +271,7 @@ class Analyzer:
                 if shape is None or any(s[0] != "nil" for s in sh):
                     shape = sh
         self.shapes[fname] = shape
-        errs = [p for p in paths if p.outcome[0] == "error"]
+        errs = [p for p in paths if p.outcome[0] == "error" and not p.dstate.get("extcalls")]
         if errs:
             chk.note_inconclusive("%s: engine could not execute a path: %s" % (fname, errs[0].outcome[1][:160]))
         # ---- leak sites
@@ -263,6 +287,10 @@ class Analyzer:
             tq = time.time()
             done_keys = set()
             for p, expr, npc in occ:
+                if kind == "extcall":
+                    verdict = "sat"
+                    witness = {"callee": expr}
+                    break
                 exprs = expr if isinstance(expr, tuple) else (expr,)
                 for e in exprs:
                     if isinstance(e, (int, bool)):
@@ -412,7 +440,7 @@ def run(chk):
         leaks = [s for s in r["sites"] if s["verdict"] != "unsat"]
         nsites += len(r["sites"])
         for s in r["sites"]:
-            nm = "%s: %s at %s does not depend on secrets (self-composition)" % (label, {"branch": "branch condition", "index": "index", "slicebound": "slice bound", "shift": "shift count", "div": "division operand"}[s["kind"]], s["pos"].split("/")[-1])
+            nm = "%s: %s at %s does not depend on secrets (self-composition)" % (label, {"branch": "branch condition", "index": "index", "slicebound": "slice bound", "shift": "shift count", "div": "division operand", "extcall": "call to a routine outside the analysed code (not known constant-time)"}[s["kind"]], s["pos"].split("/")[-1])
             if s["verdict"] == "unsat":
                 chk.add(Ob(nm, "unsat", s["seconds"], [fname], "BV self-composition"))
             elif exempt and s["kind"] == "branch":
